@@ -2,13 +2,16 @@ package main
 
 import (
 	"bufio"
+	"bytes"
 	"encoding/json"
 	"flag"
 	"fmt"
 	"io"
 	"log"
 	"os"
+	"os/exec"
 	"runtime/debug"
+	"strings"
 	"sync"
 
 	"verif/harness/hs"
@@ -17,6 +20,225 @@ import (
 
 func init() {
 	commands["hs-server"] = hsServer
+	commands["hs-worker"] = hsWorker
+}
+
+func replayOne(c hs.Case) *hs.Result {
+	switch c.Cfg.Flavour {
+	case "chan":
+		r := hs.ReplayChan(c)
+		return &r
+	case "client":
+		r := hs.ReplayClient(c)
+		return &r
+	}
+	return hs.ReplayServer(c)
+}
+
+func runInProcess(cases []hs.Case, results []*hs.Result, workers int) {
+	var wg sync.WaitGroup
+	ch := make(chan int)
+	for i := 0; i < workers; i++ {
+		wg.Add(1)
+		go func() {
+			defer wg.Done()
+			for idx := range ch {
+				results[idx] = replayOne(cases[idx])
+			}
+		}()
+	}
+	for i := range cases {
+		ch <- i
+	}
+	close(ch)
+	wg.Wait()
+	hs.Shutdown()
+}
+
+// hsWorker: child of runIsolated. Reads one case per stdin line; answers each
+// with one line: the final result, or "deferred" for server-flavour cases whose
+// result is final only at shutdown (printed after stdin is closed).
+func hsWorker(args []string) int {
+	log.SetOutput(io.Discard)
+	debug.SetGCPercent(-1)
+	debug.SetMemoryLimit(2 << 30)
+	in := bufio.NewScanner(os.Stdin)
+	in.Buffer(make([]byte, 1<<20), 1<<26)
+	out := bufio.NewWriter(os.Stdout)
+	var deferred []*hs.Result
+	for in.Scan() {
+		var c hs.Case
+		if err := json.Unmarshal(in.Bytes(), &c); err != nil {
+			return 2
+		}
+		r := replayOne(c)
+		if c.Cfg.Flavour == "server" {
+			deferred = append(deferred, r)
+			out.WriteString("deferred\n")
+		} else {
+			b, _ := json.Marshal(r)
+			out.Write(b)
+			out.WriteByte('\n')
+		}
+		out.Flush()
+	}
+	hs.Shutdown()
+	for _, r := range deferred {
+		b, _ := json.Marshal(r)
+		out.Write(b)
+		out.WriteByte('\n')
+	}
+	out.Flush()
+	return 0
+}
+
+type child struct {
+	cmd    *exec.Cmd
+	stdin  io.WriteCloser
+	stdout *bufio.Scanner
+	stderr *bytes.Buffer
+}
+
+func startChild() (*child, error) {
+	self, err := os.Executable()
+	if err != nil {
+		return nil, err
+	}
+	cmd := exec.Command(self, "hs-worker")
+	stdin, _ := cmd.StdinPipe()
+	stdout, _ := cmd.StdoutPipe()
+	var eb bytes.Buffer
+	cmd.Stderr = &eb
+	if err := cmd.Start(); err != nil {
+		return nil, err
+	}
+	sc := bufio.NewScanner(stdout)
+	sc.Buffer(make([]byte, 1<<20), 1<<26)
+	return &child{cmd: cmd, stdin: stdin, stdout: sc, stderr: &eb}, nil
+}
+
+func crashResult(c hs.Case, why string) *hs.Result {
+	return &hs.Result{N: c.N, Cfg: c.Cfg, Note: "process crash: " + why,
+		Actual: []tr.Event{{K: "panic", Res: "process-crash: " + why}, {K: "end", Res: "crash"}}}
+}
+
+func firstPanicLine(stderr string) string {
+	for _, l := range strings.Split(stderr, "\n") {
+		if strings.HasPrefix(l, "panic:") || strings.HasPrefix(l, "fatal error:") {
+			return l
+		}
+	}
+	return "child exited"
+}
+
+// runIsolated replays the cases in child processes, one case at a time per
+// child. A child that dies is charged to the case it was replaying.
+func runIsolated(cases []hs.Case, results []*hs.Result, nproc int) {
+	var wg sync.WaitGroup
+	queue := make(chan int, len(cases))
+	for i := range cases {
+		queue <- i
+	}
+	close(queue)
+	var mu sync.Mutex
+	var singles []int // deferred cases lost with a crashed child: re-run alone
+	worker := func(src <-chan int, alone bool) {
+		defer wg.Done()
+		var ch *child
+		var pending []int // deferred, result not yet received
+		finish := func() {
+			if ch == nil {
+				return
+			}
+			ch.stdin.Close()
+			for _, idx := range pending {
+				if ch.stdout.Scan() {
+					var r hs.Result
+					if json.Unmarshal(ch.stdout.Bytes(), &r) == nil {
+						results[idx] = &r
+						continue
+					}
+				}
+				if alone {
+					results[idx] = crashResult(cases[idx], firstPanicLine(ch.stderr.String()))
+				} else {
+					mu.Lock()
+					singles = append(singles, idx)
+					mu.Unlock()
+				}
+			}
+			pending = nil
+			ch.cmd.Wait()
+			ch = nil
+		}
+		for idx := range src {
+			if ch == nil {
+				var err error
+				if ch, err = startChild(); err != nil {
+					results[idx] = &hs.Result{N: cases[idx].N, Cfg: cases[idx].Cfg, Note: "cannot start child: " + err.Error()}
+					continue
+				}
+			}
+			b, _ := json.Marshal(cases[idx])
+			_, werr := ch.stdin.Write(append(b, '\n'))
+			ok := werr == nil && ch.stdout.Scan()
+			if ok {
+				line := ch.stdout.Text()
+				if line == "deferred" {
+					pending = append(pending, idx)
+				} else {
+					var r hs.Result
+					if json.Unmarshal([]byte(line), &r) == nil {
+						results[idx] = &r
+					} else {
+						ok = false
+					}
+				}
+			}
+			if !ok {
+				ch.stdin.Close()
+				ch.cmd.Wait()
+				results[idx] = crashResult(cases[idx], firstPanicLine(ch.stderr.String()))
+				if !alone {
+					mu.Lock()
+					singles = append(singles, pending...)
+					mu.Unlock()
+				} else {
+					for _, p := range pending {
+						results[p] = crashResult(cases[p], firstPanicLine(ch.stderr.String()))
+					}
+				}
+				pending = nil
+				ch = nil
+			}
+			if alone {
+				finish()
+			}
+		}
+		finish()
+	}
+	for i := 0; i < nproc; i++ {
+		wg.Add(1)
+		go worker(queue, false)
+	}
+	wg.Wait()
+	if len(singles) > 0 {
+		q2 := make(chan int, len(singles))
+		for _, i := range singles {
+			q2 <- i
+		}
+		close(q2)
+		for i := 0; i < nproc; i++ {
+			wg.Add(1)
+			go worker(q2, true)
+		}
+		wg.Wait()
+	}
+	for i := range results {
+		if results[i] == nil {
+			results[i] = &hs.Result{N: cases[i].N, Cfg: cases[i].Cfg, Note: "no result"}
+		}
+	}
 }
 
 type cfgLine struct {
@@ -34,6 +256,7 @@ func hsServer(args []string) int {
 	resPath := fs.String("results", "", "json summary output")
 	workers := fs.Int("workers", 32, "parallel replays")
 	quiet := fs.Bool("quiet", true, "discard the library's log output")
+	isolate := fs.Bool("isolate", false, "replay in child processes so that a process crash is pinned on its case")
 	fs.Parse(args)
 	if *quiet {
 		log.SetOutput(io.Discard)
@@ -70,29 +293,11 @@ func hsServer(args []string) int {
 		return 2
 	}
 	results := make([]*hs.Result, len(cases))
-	var wg sync.WaitGroup
-	ch := make(chan int)
-	for i := 0; i < *workers; i++ {
-		wg.Add(1)
-		go func() {
-			defer wg.Done()
-			for idx := range ch {
-				c := cases[idx]
-				if c.Cfg.Flavour == "chan" {
-					r := hs.ReplayChan(c)
-					results[idx] = &r
-				} else {
-					results[idx] = hs.ReplayServer(c)
-				}
-			}
-		}()
+	if *isolate {
+		runIsolated(cases, results, *workers)
+	} else {
+		runInProcess(cases, results, *workers)
 	}
-	for i := range cases {
-		ch <- i
-	}
-	close(ch)
-	wg.Wait()
-	hs.Shutdown()
 	for i, r := range results {
 		vs := []interface{}{cfgLine{K: "cfg", N: cases[i].N, Cfg: cases[i].Cfg, Match: r.Match}}
 		for _, e := range r.Actual {
@@ -116,6 +321,7 @@ func hsServer(args []string) int {
 		Matched    int        `json:"matched"`
 		Notes      int        `json:"notes"`
 		LeakCensus int        `json:"leak_census"`
+		Crashed    int        `json:"crashed"`
 		Mismatches []mismatch `json:"mismatches"`
 	}{Cases: len(cases), LeakCensus: hs.LeakCensus}
 	for i, r := range results {
@@ -126,6 +332,9 @@ func hsServer(args []string) int {
 		}
 		if r.Note != "" {
 			sum.Notes++
+		}
+		if strings.HasPrefix(r.Note, "process crash") {
+			sum.Crashed++
 		}
 	}
 	b, _ := json.MarshalIndent(sum, "", " ")
